@@ -430,6 +430,11 @@ def generate(unit, template_path, repo=None, canary=False):
                 raise AnchorError(f'{fi.name}: rewrite {rid} `{pat}` matched {n} times (template line {lineno})')
             count(rid, n)
             fi.rewrites[rid] = fi.rewrites.get(rid, 0) + n
+        if fi.is_fn and 'R22' in rewrites:
+            body, n = rw.r22_adapters(body)
+            count('R22', n)
+            if n:
+                fi.rewrites['R22'] = n
         if 'R2' in rewrites:
             body, n = rw.r2_logging(body)
             count('R2', n)
